@@ -6,7 +6,7 @@
    case inputs  = ((OP ...) ((sPKG sNAME) ...))
      OP = (scall_ok) | (scall_404) | (scall_404_http) | (scall_badbody xCAUSE) | (scall_panic xCAUSE) | (scall_panic_http xCAUSE)
         | (scall_custom zCODE xMSG xCAUSE) | (sclosed_call) | (sclosed_push) | (sdial_fail xCAUSE)
-        | (smtype_405) | (sunprepared) | (swrite_failed) | (sproxy_call FWD)
+        | (smtype_405) | (spush_404) | (sunprepared) | (swrite_failed) | (sproxy_call FWD)
         | (sproxy_call_panicked FWD xCAUSE) | (sproxy_push FWD)
         | (sbinder sSHARED sFIELD xCAUSE) | (sauth_fail) | (sauth_multi) | (ssecure_fail TRIPLE)
      FWD = sok | (ssent sPKG sNAME) | (sobj TRIPLE);  TRIPLE = (zCODE xMSG snone|(ssome xCAUSE))
@@ -61,6 +61,7 @@ Definition event_of_val (t : table) (v : val) : option event :=
           else if keq k "closed_call" then Some (EReturn (root "statConnClosed"))
           else if keq k "closed_push" then Some (EReturn (root "statConnClosed"))
           else if keq k "mtype_405" then Some (ESilent (root "statCodeMtypeNotAllowed"))
+          else if keq k "push_404" then Some (ESilent (root "statNotFound"))
           else if keq k "unprepared" then Some (EReturn (root "statUnpreparedError"))
           else if keq k "write_failed" then Some (ECopy (root "statWriteFailed") (str "context canceled"))
           else if keq k "auth_fail" then Some (ECopy (root "statDialFailed") (str "bad token"))
